@@ -6,7 +6,11 @@ import zipfile
 
 from . import gen
 
-UNI = ["a", "b", "ä", "😀", "日本", 'q"t', "a b", "c", "", "lone\udc80surrogate"]
+class StrSub(str):
+    """An instance of a str subclass (as members of a StrEnum are): stored and loaded like the equal str."""
+
+
+UNI = ["a", "b", "ä", "😀", "日本", 'q"t', "a b", "c", "", "lone\udc80surrogate", StrSub("sub-str")]
 KINDS = ["k1", "k2", "k3"]
 FLAVOURS = ["plain_str", "str_ids", "str_hook", "obj_cb", "obj_derived", "obj_default", "typed_obj_default", "dw", "typed_str", "typed_str_ids",
             "typed_obj", "typed_derived", "fs", "typed_mixed", "mixed_ids"]
